@@ -172,7 +172,7 @@ func ReplayMain(harnesses map[string]func()) {
 	entry := os.Getenv("VERIF_ENTRY")
 	h, ok := harnesses[entry]
 	if !ok {
-		fmt.Println("REPLAY-FAIL no such harness", entry)
+		fmt.Println("REPLAY-ERROR no such harness", entry)
 		return
 	}
 	dir := os.Getenv("VERIF_PIN_DIR")
@@ -189,7 +189,7 @@ func ReplayMain(harnesses map[string]func()) {
 		dec := json.NewDecoder(bytesReader(b))
 		dec.UseNumber()
 		if err := dec.Decode(&pins); err != nil {
-			fmt.Println("REPLAY-FAIL bad pin file", err)
+			fmt.Println("REPLAY-ERROR bad pin file", err)
 			continue
 		}
 		pinOnce.Do(func() {})
